@@ -86,22 +86,22 @@ PROPS = {
                 rule="multi-key monotone histories on a random store configuration; gaps drawn from the refill/expiry/cleanup boundary set; all O(n^2) windows of every fixed-limits key summed; non-trivial = the history has both admitted and denied requests; distinct = hash of configuration + request lines"),
     "C02": dict(runs=[("core", "hist", dict(quick=1500, thorough=40000))], proj=proj_allowed, tags=["C02"],
                 rule="same histories as C01; every decision compared with an exact integer token bucket (capacity burst, one token per emission interval); non-trivial = both admitted and denied requests present"),
-    "C03": dict(runs=[("core", "hist", dict(quick=300, thorough=6000)), ("core", "probe", dict(quick=150, thorough=3000))], proj=proj_fields, tags=["C03"],
+    "C03": dict(runs=[("core", "hist", dict(quick=1000, thorough=20000)), ("core", "probe", dict(quick=800, thorough=12000))], proj=proj_fields, tags=["C03"],
                 rule="hist: every response's fields against the bucket (remaining exact, retry_after exact, reset_after >= refill time, reset_after = lifetime asked of the store); probe: sampled responses probed from a re-executed copy of their state (remaining / remaining+1, retry_after / retry_after-1ns, after reset_after = never-seen key)"),
-    "C04": dict(runs=[("core", "insert", dict(quick=300, thorough=8000))], proj=proj_resp_trace, tags=["C04"],
+    "C04": dict(runs=[("core", "insert", dict(quick=1500, thorough=30000))], proj=proj_resp_trace, tags=["C04"],
                 rule="base history vs the same history with denied / zero-quantity / invalid requests inserted at random positions and times (also under other limits); every base response must be unchanged; rejected requests must issue no store operation and create no entry"),
     "C05": dict(runs=[("core", "iso", dict(quick=400, thorough=6000))], proj=proj_resp, tags=["C05"],
                 rule="interleaved multi-key history (keys: empty, NUL, Unicode, 64 KiB, one-byte differences; 20-70% noise keys so the table grows and every cleanup trigger fires) vs the solo run of each key on a fresh limiter"),
-    "C06": dict(runs=[("core", "storeops", dict(quick=250, thorough=8000)), ("core", "hist", dict(quick=100, thorough=2000))], proj=proj_full, tags=["C06"],
+    "C06": dict(runs=[("core", "storeops", dict(quick=600, thorough=15000)), ("core", "hist", dict(quick=300, thorough=5000))], proj=proj_full, tags=["C06"],
                 rule="raw get/set-if-absent/compare-and-swap sequences on the three real stores in random (also degenerate) configurations, times straddling every cleanup trigger; snapshot of entries and scheduling state compared with the model after every operation; answers compared with an independent abstract expiring map"),
-    "C07": dict(runs=[("core", "hist", dict(quick=200, thorough=4000)), ("core", "reclaim", dict(quick=25, thorough=600))], proj=proj_lifetime, tags=["C07"],
+    "C07": dict(runs=[("core", "hist", dict(quick=800, thorough=15000)), ("core", "reclaim", dict(quick=150, thorough=3000))], proj=proj_lifetime, tags=["C07"],
                 rule="hist: lifetime of every store write within [E, 2*B*E]; reclaim: unbounded stream of fresh keys with a bounded active set on cleanup-enabled stores, after every guaranteed cleanup point (interval elapsed / operation budget / N-th write) no held entry is expired and the entry count is within the active set"),
     "C08": dict(runs=[("core", "lattice", dict(quick=0, thorough=1))], proj=proj_resp, tags=["C08"],
                 rule="boundary lattice {MIN,-1,0,1,2,2^31-1,2^31,2^32-1,2^32,2^32+1,2^53-1,2^53+1,2^63/1e9 -+1,MAX-1,MAX}^4 (thorough: 24^4) x 4 timestamps 1970..2200 x fresh/pre-populated x 3 stores, plus random points; harness built with overflow checks on (debug profile) and off (release)",
                 profiles=["release", "dev"]),
     "C17": dict(runs=[("core", "regress", dict(quick=300, thorough=8000))], proj=proj_allowed, tags=["C17"],
                 rule="histories with arbitrary timestamp order (jitter, multi-second steps back, oscillation) on stores with aggressive cleanup; no error/panic; window bound with measured J; budget probes at an earlier timestamp vs the latest one by re-execution"),
-    "C18": dict(runs=[("core", "rate", dict(quick=60000, thorough=3000000))], proj=proj_full, tags=["C18"],
+    "C18": dict(runs=[("core", "rate", dict(quick=600000, thorough=20000000))], proj=proj_full, tags=["C18"],
                 rule="(count, period) boundary lattice, divisors and near-divisors of period*1e9, random points in and outside D; unit constructors at boundaries and random n in 1..2^32-1; non-trivial = point inside D"),
 }
 
